@@ -1,33 +1,25 @@
-// ---- ASSUMED (label A): the Lehmer update matrix (src/algorithms/gcd/matrix.rs) ----
+// ---- ASSUMED (label A): LehmerMatrix::from, the construction of the update matrix (src/algorithms/gcd/matrix.rs) ----
 // Signs are implicit (matrix.rs): .4 == true means [ .0 -.1; -.2 .3 ], false means [ -.0 .1; .2 -.3 ].
 // `from(a, b)` for a >= b returns either the identity or a cofactor matrix of a non-empty run of Euclid steps on (a, b):
 // it maps (a, b) exactly (over the integers) to a later pair (c, d) of the remainder sequence (0 <= d <= c <= a, d < b, same gcd),
-// its determinant is +1 / -1 according to .4, and its top row is elementwise below its bottom row (every cofactor matrix of
-// k >= 1 Euclid steps has that shape). `apply` evaluates the signed map modulo 2^BITS.
-// This is the last sentence of property C12 plus the cofactor shape; the construction (from_u64, from_u64_prefix,
-// from_u128_prefix, Jebelean's conditions) is not under proof. Kani checks it at tiny sizes only (c10/c12).
-pub struct LehmerMatrix(pub u64, pub u64, pub u64, pub u64, pub bool);
-impl PartialEqSpecImpl for LehmerMatrix {
+// its determinant is +1 / -1 according to .4, its top row is elementwise below its bottom row (every cofactor matrix of
+// k >= 1 Euclid steps has that shape) and its entries do not exceed a. This is the last sentence of property C12 plus the cofactor
+// shape. PROVED in unit lehmer: from_u64 (what `from` calls for operands of at most 64 bits) meets exactly this contract, and
+// `apply` evaluates the signed map modulo 2^BITS. NOT under proof: `from`'s dispatch (bit_len, conversions, prefix shift),
+// from_u64_prefix / from_u128_prefix (Jebelean's exactness conditions), compose. Kani checks gcd by enumeration at 3-4 bits only.
+impl PartialEqSpecImpl for Matrix {
     open spec fn obeys_eq_spec() -> bool { true }
     open spec fn eq_spec(&self, other: &Self) -> bool { *self == *other }
 }
-impl PartialEq for LehmerMatrix {
+impl PartialEq for Matrix {
+    // derived
     #[verifier::external_body]
     fn eq(&self, other: &Self) -> (r: bool) { unimplemented!() }
 }
-impl LehmerMatrix {
-    #[verifier::external_body]
-    pub fn IDENTITY() -> (r: Self) ensures is_identity(r), r == LehmerMatrix(1, 0, 0, 1, true) { unimplemented!() }
+impl Matrix {
     #[verifier::external_body]
     pub fn from<const BITS: usize, const LIMBS: usize>(a: Uint<BITS, LIMBS>, b: Uint<BITS, LIMBS>) -> (m: Self)
         requires a.wf(), b.wf(), a.val() >= b.val()
         ensures !is_identity(m) ==> lehmer_ok(m, a.val() as int, b.val() as int)
-    { unimplemented!() }
-    #[verifier::external_body]
-    pub fn apply<const BITS: usize, const LIMBS: usize>(&self, a: &mut Uint<BITS, LIMBS>, b: &mut Uint<BITS, LIMBS>)
-        requires old(a).wf(), old(b).wf()
-        ensures final(a).wf(), final(b).wf(),
-            final(a).val() as int == maps(*self, old(a).val() as int, old(b).val() as int).0 % m2(BITS),
-            final(b).val() as int == maps(*self, old(a).val() as int, old(b).val() as int).1 % m2(BITS),
     { unimplemented!() }
 }
